@@ -602,7 +602,7 @@ class ColrEval:
         return [(o, c[:3], c[3]) for o, c in stops], ext
 
     def glyph_color(self, name, q):
-        if self.colr.version == 0 or name in self.v0:
+        if self.colr.version == 0 or (name in self.v0 and name not in self.base):
             dst = CLEAR
             for layer in self.v0.get(name, []):
                 if inside_glyph(self.polys(layer.name), q):
